@@ -127,6 +127,42 @@ def _inside(st, site):
         return False
     return st is target or we(st)
 
+def edge_family(run, quick):
+    """deterministic metamorphic pairs on arithmetic edges: the expression `a op b` (operands opaque: function parameters)
+    consumed directly at register width (widened / compared) versus first bound to a fresh immutable local"""
+    fam = []
+    combos = [(t, op) for t in ("i8", "i16", "u8", "u16", "i32") for op in ("+", "-", "*", "/", "%", "neg")
+              if not (op == "neg" and not core.signed(t))]
+    always = [(t, op) for (t, op) in combos if core.BITS[t] < 32 and op in ("/", "neg", "*")]
+    rest = [c for c in combos if c not in always]
+    chosen = always + (run.rng.sample(rest, 8) if quick else rest)
+    for t, op in chosen:
+        lo, hi = core.tmin(t), core.tmax(t)
+        vals = sorted({lo, lo + 1, hi, hi - 1, 0, 1, 2} | ({-1, -2} if core.signed(t) else set()))
+        pairs = [(x, y) for x in vals for y in vals]
+        if op in ("/", "%"):
+            pairs = [(x, y) for x, y in pairs if y != 0 and not (core.BITS[t] >= 32 and core.signed(t) and x == lo and y == -1)]
+        if op == "neg":
+            pairs = [(x, 1) for x in vals]
+        pairs = pairs[:40]
+        a, b, q = 1, 2, 3
+        e = ("un", "-", ("var", a)) if op == "neg" else ("bin", op, ("var", a), ("var", b))
+        thr = ("lit", t, 1)
+        def prog(bound):
+            if bound:
+                fbody = [("let", q, t, e, True), ("return", ("cast", ("var", q), "i64"))]
+                gbody = [("let", q, t, e, True), ("return", ("bin", ">", ("var", q), thr))]
+            else:
+                fbody = [("return", ("cast", e, "i64"))]
+                gbody = [("return", ("bin", ">", e, thr))]
+            f = dict(params=[(a, t), (b, t)], ret="i64", body=fbody)
+            g = dict(params=[(a, t), (b, t)], ret="bool", body=gbody)
+            main = dict(params=[], ret="void", body=[("print", [("call", 0, [("lit", t, x), ("lit", t, y)]),
+                                                              ("call", 1, [("lit", t, x), ("lit", t, y)])]) for x, y in pairs])
+            return [f, g, main]
+        fam.append((t, op, prog(False), prog(True)))
+    return fam
+
 def main(run):
     work = Work()
     quick = run.tier == "quick"
@@ -154,6 +190,9 @@ def main(run):
             if r is None:
                 run.count("n/a:" + kind); continue
             variants.append(r[0]); meta.append((bi, kind, r[1]))
+    fam = edge_family(run, quick)
+    for t, op, p0, p1 in fam:
+        bases.append(p0); variants.append(p1); meta.append((len(bases) - 1, "bind-subexpr-edge", "%s %s consumed directly vs bound to a const first" % (t, op)))
     allp = bases + variants
     res = c01.compile_run_all(allp, work)
     observed = [core.parse_output(r["out"]) if r.get("rc") == 0 else None for r in res]
